@@ -109,7 +109,11 @@ let err_name = function
    another declared type before (conversion by affinity is outside the model) *)
 let show_table (before : etable list) (t : etable) : string =
   let cols = Stdlib.List.map (fun c -> hexs (string_of_bytes c.rc_name)) t.et_cols in
-  let old = Stdlib.List.find_opt (fun b -> str_eqb b.et_name t.et_name) before in
+  let find n = Stdlib.List.find_opt (fun b -> string_of_bytes b.et_name = n) before in
+  let tn = string_of_bytes t.et_name in
+  let old = match find tn with
+    | Some b -> Some b
+    | None -> if String.length tn > 4 && String.sub tn 0 4 = "new_" then find (String.sub tn 4 (String.length tn - 4)) else None in
   let masked c =
     c.rc_gen || (match c.rc_defval with VVal t -> string_of_bytes t = "'?'" | VNull -> false) ||
     (match old with
@@ -127,16 +131,23 @@ let show_table (before : etable list) (t : etable) : string =
 let run_apply id =
   let fk = next_bool () in
   let intx = next_bool () in
+  let k = next_int () in
   let nt = next_int () in
   let tabs = times nt parse_table in
   let nc = next_int () in
   let cs = times nc parse_schange in
   let d = { d_tables = tabs; d_fk = fk; d_intx = intx } in
-  match applyChanges conv genv d cs with
+  let rec take n l = if n <= 0 then [] else match l with [] -> [] | x :: r -> x :: take (n - 1) r in
+  let result, head =
+    if k < 0 then applyChanges conv genv d cs, "ok"
+    else (match planChanges cs with
+          | PErr _ -> None
+          | POk p -> Some (exec_all conv genv d (take k p))), "prefix" in
+  match result with
   | None -> Printf.printf "%s res planerr\n" id
   | Some (EErr e) -> Printf.printf "%s res %s\n" id (err_name e)
   | Some (EOk d') ->
-      Printf.printf "%s res ok\n" id;
+      Printf.printf "%s res %s\n" id head;
       let ts = Stdlib.List.sort (fun a b -> compare (string_of_bytes a.et_name) (string_of_bytes b.et_name)) d'.d_tables in
       Stdlib.List.iter (fun t -> Printf.printf "%s %s\n" id (show_table tabs t)) ts
 
